@@ -164,24 +164,24 @@ func genMACStream(r *core.RNG, uplink bool, n int, exact bool) ([]lorawan.Payloa
 
 // dataCase is one generated data frame in both views.
 type dataCase struct {
-	Spec      spec.DataFrame   // plaintext FOpts / FRMPayload bytes
-	FOpts     []lorawan.Payload // library view of FOpts (MAC commands, or one DataPayload when raw)
-	FOptsRaw  bool
-	FRM       []lorawan.Payload // library view of FRMPayload
-	FRMIsMAC  bool
-	FPending  bool
-	ClassB    bool
-	portKind  string
+	Spec     spec.DataFrame    // plaintext FOpts / FRMPayload bytes
+	FOpts    []lorawan.Payload // library view of FOpts (MAC commands, or one DataPayload when raw)
+	FOptsRaw bool
+	FRM      []lorawan.Payload // library view of FRMPayload
+	FRMIsMAC bool
+	FPending bool
+	ClassB   bool
+	portKind string
 }
 
 type dataGenOpts struct {
-	mtype     int // 0 = any data MType
-	foptsLen  int // -1 = random
-	portKind  int // -1 random, 0 absent, 1 port0, 2 port>0
-	frmLen    int // -1 random
-	macInFRM  int // -1 random
-	rawFOpts  int // -1 random
-	maxFRM    int
+	mtype    int // 0 = any data MType
+	foptsLen int // -1 = random
+	portKind int // -1 random, 0 absent, 1 port0, 2 port>0
+	frmLen   int // -1 random
+	macInFRM int // -1 random
+	rawFOpts int // -1 random
+	maxFRM   int
 }
 
 func anyData() dataGenOpts {
